@@ -48,6 +48,7 @@ TNext == /\ l <= Len(Log) /\ l' = l + 1
                   CASE a > 0 -> Ev.out = "ok" /\ Ev.header /\ ~Ev.unknown /\ Ev.toks = (IF cfg.args[a].nodesc THEN <<>> ELSE <<a>>)
                     [] a = 0 -> Ev.out = "ok" /\ ~Ev.header /\ Ev.unknown /\ Ev.toks = <<>>
                     [] OTHER -> TRUE
+            \/ Ev.e = "UsageLayout" /\ UNCHANGED cfg /\ Ev.out = "ok" /\ LayoutOK(Ev.width, Ev.lens, Ev.nwords)
             \/ Ev.e = "Define" /\ UNCHANGED cfg
                /\ LET d == DefineRes(cfg)
                       firstRef == IF \E k \in 1..Len(d) : d[k] = "refused" THEN CHOOSE k \in 1..Len(d) : d[k] = "refused" /\ \A j \in 1..(k-1) : d[j] = "ok" ELSE Len(d) + 1
